@@ -47,6 +47,8 @@ DETECTION = {
  "S42": ("C03", "quick", "arrays.cairo wide3_* functions (3-cell elements, index inside the span) + flipped TestLessThan: the out-of-bounds branch is taken for a valid index"),
  "S43": ("C03", "quick", "arrays.cairo wide3_arg_slice and friends + flipped TestLessThanOrEqual: a slice past the end succeeds"),
  "S44": ("C03", "quick", "missed at first (largest pop in the catalogue was 6 cells; the change only affects pops wider than 16 cells); caught after multi_pop_front17_behind / multi_pop_back17_behind / multi_pop_front_u256x9_behind (readable data behind the span) + flipped TestLessThanOrEqualAddress"),
+ "S45": ("C13", "quick", "any edit that keeps the number of errors of a module but changes which ones (comment line above an error, rename): the aggregated diagnostics of the previous revision are served"),
+ "S46": ("C13", "quick", "a line inserted above a syntax error: the parser diagnostic keeps the old offset"),
  "S20": ("C12", "thorough", "missed at first: a process-wide static std Mutex taken with try_lock around a pure computation; contention needs a preemption inside a critical section that contains no synchronisation point shuttle controls. Caught by thorough since level 2 has the allocator-driven preemption seam (a task can lose the processor k allocations after a query event): Sierra of the circuits project differs under a PCT/random schedule with 8 workers, replayable. Before level-1 runs were isolated in child processes the harness's own worker threads contended on that static and produced a difference that did not replay (reported as a harness error, exit 2) - which is why every run now executes in its own process."),
 }
 for d in sorted(glob.glob(os.path.join(ROOT, "seeded", "S*"))):
